@@ -35,6 +35,7 @@ type snap struct {
 	rh, ah   int
 	pos      map[string]string
 	nrounds  int
+	d4       map[string]bool // readers blocked inside D4 (not printed; for the oracle's schedule classes)
 }
 
 type kase struct {
@@ -85,7 +86,7 @@ func (w *world) snapshot(pos map[string]string) snap {
 		out[a.name] = p
 	}
 	return snap{status: st, health: s.Health(), idc: idc, count: w.cli.CountSession(), idxcur: ok && got == s,
-		notified: notified, disc: w.discHks, rh: w.redialHks, ah: w.acceptHks, pos: out, nrounds: len(w.rounds)}
+		notified: notified, disc: w.discHks, rh: w.redialHks, ah: w.acceptHks, pos: out, nrounds: len(w.rounds), d4: w.d4}
 }
 
 func (s snap) val() string {
@@ -170,6 +171,9 @@ func (k *kase) human() string {
 // exec runs one command on the implementation, waits for quiescence and records the snapshot
 // together with the hints (environment choices the model cannot know).
 func (k *kase) exec(w *world, c cmd) snap {
+	w.mu.Lock()
+	w.cmdIndex = len(k.cmds)
+	w.mu.Unlock()
 	var before map[string]string
 	if len(k.snaps) > 0 {
 		before = k.snaps[len(k.snaps)-1].pos
@@ -191,7 +195,7 @@ func (k *kase) exec(w *world, c cmd) snap {
 		w.pdef = c.arg[0]
 		w.mu.Unlock()
 	}
-	pos := w.settle(c.op == "cut")
+	pos := w.settle(c.op == "cut", before)
 	s := w.snapshot(pos)
 	readerBlocked := false
 	for n, p := range s.pos {
@@ -394,13 +398,83 @@ func oracle(st *Stats, idx int, k *kase) {
 		}
 	}
 	okRounds := 0
-	for _, r := range k.rounds {
+	for ri, r := range k.rounds {
 		if r.ok {
 			okRounds++
 		}
 		if k.budget >= 0 && r.attempts > 1+int(k.budget) {
 			fail("attempts", fmt.Sprintf("a redial round made %d dial attempts with budget %d", r.attempts, k.budget))
 		}
+		// what the round must do follows from the answers the environment had ready for it:
+		// it succeeds at the first reachable+accepting attempt among the first 1+n, and
+		// gives up only after exactly 1+n failed attempts
+		want, wantOK := 0, false
+		for j := 0; k.budget < 0 || j < 1+int(k.budget); j++ {
+			v := r.def
+			if j < len(r.offered) {
+				v = r.offered[j]
+			}
+			want = j + 1
+			if v == 'a' {
+				wantOK = true
+				break
+			}
+			if k.budget < 0 && j > 64 {
+				break
+			}
+		}
+		if r.ok != wantOK || r.attempts != want {
+			fail("round-outcome", fmt.Sprintf("round %d (%s, budget %d, environment %q then %c): %d attempts ok=%v, expected %d attempts ok=%v",
+				ri, r.owner, k.budget, r.offered, r.def, r.attempts, r.ok, want, wantOK))
+		}
+	}
+	// the schedules behind the known findings (see notes/C13.md); outside them the same
+	// symptoms are plain violations
+	inDisc := func(s snap, withLock bool) bool {
+		for n, p := range s.pos {
+			if n[0] != 'r' {
+				continue
+			}
+			if p == gStored || p == gPrecancel || p == gPresock || (p == "lock" && (s.d4[n] || withLock)) {
+				return true
+			}
+		}
+		return false
+	}
+	e1, e2, e3 := false, false, false
+	for _, r := range k.rounds {
+		if r.owner == "" || r.owner[0] != 'c' || r.endCmd < 1 || r.endCmd > len(k.snaps) {
+			continue
+		}
+		before := k.snaps[r.endCmd-1]
+		if r.ok && inDisc(before, false) {
+			e1 = true // a caller's round succeeded while the old reader stood between D1 and D6
+		}
+		if !r.ok && strings.Contains(firstN(r.offered, r.attempts), "j") && inDisc(before, true) {
+			e3 = true // a caller's round was exhausted after a rejected hook had replaced the connection
+		}
+	}
+	for i, c := range k.cmds {
+		if c.op != "call" || i == 0 {
+			continue
+		}
+		for _, p := range k.snaps[i-1].pos {
+			if p == gReset || p == gHook {
+				e2 = true // a caller entered write() inside the Reset..Ok window of a round
+			}
+		}
+	}
+	staleKey := func(key string) string {
+		if e1 || e2 || e3 {
+			return key
+		}
+		return "unexcused-" + key
+	}
+	endKey := func(key string) string {
+		if e3 || e2 {
+			return key
+		}
+		return "unexcused-" + key
 	}
 	fin := k.snaps[len(k.snaps)-1]
 	if fin.ah != okRounds {
@@ -424,13 +498,13 @@ func oracle(st *Stats, idx int, k *kase) {
 	case alive:
 	case ended:
 		if !pre.notified {
-			fail("ended-not-notified", "attempts exhausted / session ended ("+pre.status+") but CloseNotify did not fire")
+			fail(endKey("ended-not-notified"), "attempts exhausted / session ended ("+pre.status+") but CloseNotify did not fire")
 		}
 		if pre.count != 0 {
-			fail("ended-indexed", fmt.Sprintf("session ended (%s) but CountSession=%d", pre.status, pre.count))
+			fail(staleKey("ended-indexed"), fmt.Sprintf("session ended (%s) but CountSession=%d", pre.status, pre.count))
 		}
 	default:
-		fail("limbo", "after draining the session is neither live nor ended: status "+pre.status)
+		fail(staleKey("limbo"), "after draining the session is neither live nor ended: status "+pre.status)
 	}
 	probeUp := k.cmds[pi].arg == "a"
 	probeRes := fin.pos[fmt.Sprintf("c%d", ncallers(fin)-1)]
@@ -444,7 +518,7 @@ func oracle(st *Stats, idx int, k *kase) {
 			fail("later-call", "server reachable but the later call ended "+probeRes)
 		}
 		if fin.status == "passive-closing" {
-			fail("limbo", "server reachable, later call succeeded, then the session is neither live nor ended: "+fin.human())
+			fail(staleKey("limbo"), "server reachable, later call succeeded, then the session is neither live nor ended: "+fin.human())
 		} else if fin.status != "ok" || !fin.health {
 			fail("not-recovered", "server reachable, later call made, session: "+fin.human())
 		}
@@ -465,20 +539,58 @@ func oracle(st *Stats, idx int, k *kase) {
 			continue
 		}
 		if !s.idxcur {
-			fail("live-session-unindexed", fmt.Sprintf("status ok but GetSession(ID()) does not return the session after command %d", i))
+			fail(staleKey("live-session-unindexed"), fmt.Sprintf("status ok but GetSession(ID()) does not return the session after command %d", i))
 		} else if s.count != 1 {
-			fail("index-stale-key", fmt.Sprintf("CountSession=%d for one live session after command %d", s.count, i))
+			fail(staleKey("index-stale-key"), fmt.Sprintf("CountSession=%d for one live session after command %d", s.count, i))
 		}
 	}
 	cuts := 0
-	for _, c := range k.cmds {
+	lastCut := -1
+	for i, c := range k.cmds {
 		if c.op == "cut" {
 			cuts++
+			lastCut = i
+		}
+	}
+	// a call made after the last loss and in flight across a successful redial is retried on the
+	// new connection: it must not end with connection-closed
+	ci := 0
+	for i, c := range k.cmds {
+		if c.op != "call" {
+			continue
+		}
+		name := fmt.Sprintf("c%d", ci)
+		ci++
+		if i <= lastCut {
+			continue
+		}
+		end := -1
+		for j := i; j < len(k.snaps); j++ {
+			if k.snaps[j].pos[name] == "closed" {
+				end = j
+				break
+			}
+		}
+		if end < 0 {
+			continue
+		}
+		for _, r := range k.rounds {
+			if r.ok && r.endCmd >= i && r.endCmd <= end {
+				fail(staleKey("call-closed-despite-redial"), fmt.Sprintf("call %s (command %d, after the last loss) ended connection-closed at command %d although a redial succeeded at command %d", name, i, end, r.endCmd))
+				break
+			}
 		}
 	}
 	if okRounds > cuts {
-		fail("redial-of-healthy-connection", fmt.Sprintf("%d successful redials for %d connection losses", okRounds, cuts))
+		fail(staleKey("redial-of-healthy-connection"), fmt.Sprintf("%d successful redials for %d connection losses", okRounds, cuts))
 	}
+}
+
+func firstN(s string, n int) string {
+	if n < len(s) {
+		return s[:n]
+	}
+	return s
 }
 
 func sortNames(names []string) {
